@@ -122,8 +122,10 @@ func (q *Queue[T]) doAdd(item T) error {
 		q.nempty.Signal()
 	}
 
-	// for the iterator, signal for any updates
-	q.nupdates.Signal()
+	// wake everything waiting for updates: iterators and blocked
+	// producers share this condition, and a single signal may go
+	// to a waiter that cannot use it.
+	q.nupdates.Broadcast()
 
 	return nil
 }
